@@ -289,31 +289,40 @@ Definition q3_step (s : q3_st) (e : event) : option q3_st :=
   end.
 Definition c07_single_ack (es : list event) : bool := scan q3_step (Q3St [] [] [] []) es.
 
-(* the backend discipline: a hand-over that is still unacknowledged when the same id
-   is looked up again for another PUBREL is never acknowledged afterwards
-   (acknowledge before the next PUBREL for that id is processed, or never).
+(* the backend discipline (prompt acknowledgement): when a PUBREL's stored PUBLISH is
+   looked up and found, (1) no goroutine is inside an acknowledgement of an earlier
+   hand-over of that id with its release (Delete) still to come, and (2) every earlier
+   hand-over of that id that is still un-invoked is never invoked afterwards.
+   "Acknowledge before the next PUBREL for that id is processed, or never."
    MemoryBackend acknowledges inside Publish and satisfies it trivially. *)
 Record pk_st := PkSt {
   pk_last : list (N * packet);
-  pk_open : list (N * N);          (* closure k of a PUBREL-publish -> id, not yet returned *)
-  pk_over : list N }.              (* closures overtaken by a later lookup of their id *)
+  pk_open : list (N * N);      (* closure k of a PUBREL-publish -> id: issued, not invoked yet *)
+  pk_busy : list (N * N);      (* goroutine g -> id: g is inside such a closure, before its Delete *)
+  pk_over : list N }.          (* closures overtaken by a later successful lookup of their id *)
 Definition pk_step (s : pk_st) (e : event) : option pk_st :=
   match e with
-  | ENewConn => Some (PkSt [] (pk_open s) (pk_over s))
-  | ERx g p => Some (PkSt (aput (pk_last s) g p) (pk_open s) (pk_over s))
+  | ENewConn => Some (PkSt [] (pk_open s) (pk_busy s) (pk_over s))
+  | ERx g p => Some (PkSt (aput (pk_last s) g p) (pk_open s) (pk_busy s) (pk_over s))
   | EPub g _ (Some k) =>
       match aget (pk_last s) g with
-      | Some (Pubrel id) => Some (PkSt (pk_last s) ((k, id) :: pk_open s) (pk_over s))
+      | Some (Pubrel id) => Some (PkSt (pk_last s) ((k, id) :: pk_open s) (pk_busy s) (pk_over s))
       | _ => Some s
       end
-  | ELookup _ Incoming id _ =>
-      Some (PkSt (pk_last s) (pk_open s)
-                 (map fst (filter (fun e => snd e =? id) (pk_open s)) ++ pk_over s))
-  | EAckCall k _ => if nmem k (pk_over s) then None else Some s
-  | EAckRet k _ => Some (PkSt (pk_last s) (adel (pk_open s) k) (pk_over s))
+  | ELookup _ Incoming id (LRes (Some _)) =>
+      if existsb (fun e => snd e =? id) (pk_busy s) then None
+      else Some (PkSt (pk_last s) (pk_open s) (pk_busy s)
+                      (map fst (filter (fun e => snd e =? id) (pk_open s)) ++ pk_over s))
+  | EAckCall k g =>
+      if nmem k (pk_over s) then None else
+      match aget (pk_open s) k with
+      | Some id => Some (PkSt (pk_last s) (adel (pk_open s) k) (aput (pk_busy s) g id) (pk_over s))
+      | None => Some s
+      end
+  | EDelete g Incoming _ _ => Some (PkSt (pk_last s) (pk_open s) (adel (pk_busy s) g) (pk_over s))
   | _ => Some s
   end.
-Definition prompt_acks (es : list event) : bool := scan pk_step (PkSt [] [] []) es.
+Definition prompt_acks (es : list event) : bool := scan pk_step (PkSt [] [] [] []) es.
 
 (* C07_pubrel_answered: at quiescence every PUBREL received on the live
    connection has had its PUBCOMP sent, unless the backend still withholds the
